@@ -37,7 +37,8 @@ ASSUMPTIONS = [
     "no real process pool: its protocol (pickled task and result, no shared memory) is emulated in-process by the scheduled pool's pickle mode",
 ]
 
-OBJECTIVES = ["flops", "size", "write", "combo", "limit"]
+# (with explicit factors as well: 'combo-8' is held as the float 8.0 inside)
+OBJECTIVES = ["flops", "size", "write", "combo", "limit", "combo-8", "limit-3"]
 REAL_METHODS = ["greedy", "random-greedy", "labels", "kahypar", "random"]
 FLAKY = "verif-flaky"
 
@@ -187,9 +188,9 @@ def cases(draw):
         # search a second time through the same optimizer object (it carries on)
         "again": draw(st.sampled_from([False, False, True])),
         "seed": draw(st.integers(0, 999)),
-        # (cmaes needs every method to have at least one hyper-parameter, which
-        # the parameter-free 'random' method has not)
-        "optlib": draw(st.sampled_from(["random", "random", "random", "cmaes"])) if "random" not in methods else "random",
+        # (also with the parameter-free 'random' method, which leaves cmaes
+        # nothing to tune)
+        "optlib": draw(st.sampled_from(["random", "random", "random", "cmaes"])),
     }
 
 
